@@ -453,6 +453,21 @@ HfeFile::HfeFile(const std::string& name, bool compressed, std::unique_ptr<DFS::
 	  throw InvalidHfeFile(ss.str());
 	}
 
+      // These values come from the file, so check them rather than
+      // asserting that they are sane.
+      if (header_.number_of_track == 0)
+	{
+	  throw InvalidHfeFile("the HFE file header says the image contains no tracks");
+	}
+      if (header_.number_of_side != 1 && header_.number_of_side != 2)
+	{
+	  std::ostringstream ss;
+	  ss << "the HFE file header says the image has "
+	     << static_cast<unsigned int>(header_.number_of_side)
+	     << " sides, but only 1 or 2 are possible";
+	  throw InvalidHfeFile(ss.str());
+	}
+
       std::vector<PicTrack> track_lut = read_track_offset_lut(file_.get(), header_.number_of_track);
 
       for (unsigned int side = 0; side < header_.number_of_side; ++side)
